@@ -385,7 +385,15 @@ fn varlink_bridge(
                 } else {
                     let stdin = ::std::io::stdin();
                     let stdout = ::std::io::stdout();
-                    handle(resolver, stdin, stdout).map_err(|e| format!("Bridging: {e}"))?;
+                    match handle(resolver, stdin, stdout) {
+                        // one side hung up: the normal end of an upgraded session
+                        Err(e)
+                            if e.downcast_ref::<std::io::Error>().map(|e| e.kind())
+                                == Some(std::io::ErrorKind::BrokenPipe) => {}
+                        r => {
+                            r.map_err(|e| format!("Bridging: {e}"))?;
+                        }
+                    }
                     return Ok(());
                 }
             }
